@@ -41,6 +41,13 @@
 (*   LeakUnstored     an object that got oid and jar from the pickler (or   *)
 (*                    from add()) but did not reach the cache when the      *)
 (*                    store loop raised is in no set and keeps oid and jar  *)
+(*   AddBeforeJoin    Connection._add gives the object oid and jar BEFORE   *)
+(*                    _register joins the transaction: when the join raises *)
+(*                    (transaction in the failed state) the object keeps    *)
+(*                    them and is in no set                                 *)
+(*   ImportNotCreating importFile() writes the imported records into the    *)
+(*                    savepoint store without entering them in a creating   *)
+(*                    map: the object it returns is never disowned          *)
 (* `obs` is a function of the other variables (it adds no states): what the *)
 (* application would see on access, what another connection sees, and the   *)
 (* clauses of C11 / C12 that do not hold in the state (`mon`).              *)
@@ -59,7 +66,8 @@ CONSTANTS Obj,              \* application objects (strings); Root is the databa
           MaxAct,           \* application actions (modify, link, add, load, savepoint, rollback) per transaction
           MaxTail,          \* ... once MaxCommit is used up
           Ops,              \* enabled families: "add" "load" "sp" "close" "own" "rm" "other" "free" (modify unowned objects)
-          AliasCreating, SpBlobByName, InvalidateDoomed, LeakUnstored
+                            \* "bf" (storage refuses tpc_begin) "awf" (add while the transaction is failed) "imp" (importFile)
+          AliasCreating, SpBlobByName, InvalidateDoomed, LeakUnstored, AddBeforeJoin, ImportNotCreating
 
 VARIABLES ob,    \* [All -> [own, cached, flag, serial, st]]  the application's objects
           cn,    \* the connection's bookkeeping
@@ -367,6 +375,22 @@ Savepoint ==
      ELSE UNCHANGED <<ob, cn, tmp>> /\ sps' = Append(sps, SpRec("abort", B))
   /\ UNCHANGED hist /\ SetObs({})
 
+\* Connection.importFile(f) of an export holding ONE object (state [V0, no children]): _register() joins, an
+\* (optimistic) transaction savepoint runs Connection.savepoint(), whose _commit first copies the imported record
+\* into the savepoint store under a fresh oid and then flushes the registered objects; get(oid) then makes a ghost in
+\* the cache.  The model object o stands for the object importFile returns (o was not in use).
+Unused(o) == ~ob[o].own /\ ob[o].flag = "clean" /\ ob[o].st = St(V0, <<>>) /\ \A p \in All : o \notin Range(ob[p].st.kids)
+ImportInTxn(o) ==
+  /\ Act /\ "imp" \in Ops /\ "sp" \in Ops /\ o \in Obj \ Blobs /\ Unused(o)
+  /\ LET b0 == [B EXCEPT !.cn.joined = TRUE]
+         b1 == SavepointOp(b0)
+         cre == [b1.tmp.cre EXCEPT ![o] = IF ImportNotCreating THEN @ ELSE "i"]
+         al == b1.tmp.alias
+     IN /\ Set([b1 EXCEPT !.tmp.index[o] = St(V0, <<>>), !.tmp.pos = @ + 1, !.tmp.cre = cre,
+                          !.ob[o] = [own |-> TRUE, cached |-> TRUE, flag |-> "ghost", serial |-> 0, st |-> GhostSt]])
+        /\ sps' = IF al # 0 /\ al <= Len(b1.sps) THEN [b1.sps EXCEPT ![al].cre = cre] ELSE b1.sps
+  /\ UNCHANGED hist /\ SetObs({})
+
 \* transaction.savepoint() when the connection's savepoint() raises part-way: Transaction._cleanup calls abort()
 \* (and tpc_abort(), which raises at once: no tpc_begin was made; swallowed), the transaction is marked failed and
 \* the caller aborts it (a stutter for the connection, then the boundary)
@@ -477,6 +501,21 @@ FailBeforeBegin ==
   /\ App /\ "rm" \in Ops /\ cn.joined
   /\ Set(Boundary(AbortOp(B), hist)) /\ sps' = <<>> /\ cm' = Idle /\ UNCHANGED hist /\ SetObs({})
 
+\* the storage's own tpc_begin raises (FileStorage refuses a description / user / extension longer than 65535 bytes
+\* after it took the commit lock): Connection.tpc_begin has reset _modified and _creating and registered the
+\* transaction's metadata, so tpc_abort reaches the storage (which releases its lock)
+BeginFails ==
+  /\ App /\ "bf" \in Ops /\ cn.joined
+  /\ Failed([B EXCEPT !.cn.modified = {}, !.cn.creating = NoCre], FALSE)
+
+\* a commit fails (as FailBeforeBegin) and BEFORE aborting the application calls Connection.add(o): _register cannot
+\* join the failed transaction and raises TransactionFailedError; then the application aborts
+AddWhileFailed(o) ==
+  /\ App /\ "awf" \in Ops /\ cn.joined /\ o \in Obj /\ ~ob[o].own /\ Fresh(o)
+  /\ LET b == Boundary(AbortOp(B), hist)
+     IN Set(IF AddBeforeJoin THEN [b EXCEPT !.ob[o].own = TRUE] ELSE b)
+  /\ sps' = <<>> /\ cm' = Idle /\ UNCHANGED hist /\ SetObs({})
+
 \* ... after the connection's tpc_begin, before it stored anything
 FailBegun ==
   /\ cm.pc = "begun" /\ "rm" \in Ops /\ cm.stack = <<>> /\ cm.tx = EmptyTx /\ (tmp.on \/ cm.todo = cn.reg)
@@ -547,11 +586,11 @@ OtherCommit(o) ==
 Next ==
   \/ \E o \in All : (\E v \in Val : Modify(o, v)) \/ Load(o) \/ AddExplicit(o) \/ OtherCommit(o)
                     \/ Store(o) \/ StoreRaises(o) \/ StoreConflict(o) \/ SavepointRaises(o) \/ CommitSpRaises(o)
-                    \/ CommitSpStoreRaises(o)
+                    \/ CommitSpStoreRaises(o) \/ AddWhileFailed(o) \/ ImportInTxn(o)
   \/ \E e \in Edges : Link(e[1], e[2]) \/ Unlink(e[1], e[2])
   \/ Savepoint \/ (\E k \in 1..MaxSp : Rollback(k))
   \/ Begin \/ Stored \/ CommitSp \/ CommitSpConflict \/ Vote \/ Finish
-  \/ FailBeforeBegin \/ FailBegun \/ FailStored \/ FailVoted \/ FinishThenFail
+  \/ FailBeforeBegin \/ BeginFails \/ FailBegun \/ FailStored \/ FailVoted \/ FinishThenFail
   \/ Abort \/ Close \/ Reopen
 
 Spec == Init /\ [][Next]_vars
